@@ -304,26 +304,29 @@ class C20(Property):
         if not np.allclose(thick[v0], t0[v0], rtol=1e-4, atol=1e-5):
             raise Violation("invariance", sig + ":thickness", "thickness values change %s" % how)
 
-    def shares(self, step, n):
+    def partitioner(self, step):
         import random
         T = step["workers"]
-        r = random.Random(step["sched_seed"] ^ 0x5EED)
-        idx = list(range(n))
-        if step["assign"] == "round_robin":
-            sh = [idx[w::T] for w in range(T)]
-        elif step["assign"] == "blocks":
-            b = -(-n // T)
-            sh = [idx[w * b:(w + 1) * b] for w in range(T)]
-        else:
-            sh = [[] for _ in range(T)]
-            for i in idx:
-                sh[r.randrange(T)].append(i)
-        for s in sh:
-            if step["order"] == "shuffled":
-                r.shuffle(s)
-            elif step["order"] == "descending":
-                s.reverse()
-        return sh
+
+        def partition(idx):
+            r = random.Random(step["sched_seed"] ^ 0x5EED ^ len(idx))
+            n = len(idx)
+            if step["assign"] == "round_robin":
+                sh = [idx[w::T] for w in range(T)]
+            elif step["assign"] == "blocks":
+                b = -(-n // T) if n else 1
+                sh = [idx[w * b:(w + 1) * b] for w in range(T)]
+            else:
+                sh = [[] for _ in range(T)]
+                for i in idx:
+                    sh[r.randrange(T)].append(i)
+            for s_ in sh:
+                if step["order"] == "shuffled":
+                    r.shuffle(s_)
+                elif step["order"] == "descending":
+                    s_.reverse()
+            return sh
+        return partition
 
     def check_kernel(self, world, step, points, normals, src_mask, tgt_mask, tgt, cand, max_vox, max_angle):
         n = len(points)
@@ -354,7 +357,7 @@ class C20(Property):
                 _STEPPER[0] = st
                 memthick.prange = _sim_prange
                 try:
-                    out = world.call("s0", st.run, memthick.find_matches_parallel.py_func, args, self.shares(step, n))
+                    out = world.call("s0", st.run, memthick.find_matches_parallel.py_func, args, self.partitioner(step))
                 finally:
                     _STEPPER[0] = None
                     memthick.prange = _REAL_PRANGE
